@@ -20,6 +20,10 @@ fn top(nhays: u8, flavor: u8) -> BoxedStrategy<TOp> {
         // a storm of one-shot free-function calls on short haystacks, every call with its own needle length
         return (h.clone(), any::<u8>(), any::<u8>(), prop::sample::select(vec![0u8, 0, 1, 2])).prop_map(|(h, n, c, r)| TOp::OneShot(h, n, c & 0xFE, r)).boxed();
     }
+    if flavor == 3 {
+        // the same storm on haystacks of 64 bytes and more (the one-shot functions build a searcher per call there)
+        return (h.clone(), any::<u8>(), any::<u8>(), prop::sample::select(vec![0u8, 1, 1, 2])).prop_map(|(h, n, c, r)| TOp::OneShot(h, n, c | 1, r)).boxed();
+    }
     prop_oneof![
         3 => (b.clone(), h.clone()).prop_map(|(a, h)| TOp::Memchr(a, h)),
         2 => (b.clone(), h.clone()).prop_map(|(a, h)| TOp::Memrchr(a, h)),
@@ -42,7 +46,7 @@ pub fn program(max_threads: usize) -> impl Strategy<Value = Program> {
         subgen::needle_spec(),
         prop::collection::vec((prop::collection::vec(subgen::piece(), 1..=6), any::<u64>()), 2..=4),
         2usize..=max_threads,
-        0u8..4,
+        0u8..5,
         prop::sample::select(vec![1u32, 1, 20, 400]),
     )
         .prop_flat_map(|(spec, hs, nthreads, flavor, reps)| {
